@@ -58,6 +58,7 @@ def step (line : String) : String :=
   | "c03.docs.lossylines" :: args => handleDocsLossyLines args
   | "c14.gcno.computeb" :: args => Grcov.Drv.C14Gcno.handleComputeB args
   | "c14.gcno.gcdarecs" :: args => Grcov.Drv.C14Gcno.handleGcdaRecs args
+  | "c14.gcno.crashsite" :: args => Grcov.Drv.C14Gcno.handleCrashSite args
   | "main.plan" :: args => Grcov.Drv.MainGlue.handlePlan args
   | "main.sort" :: args => Grcov.Drv.MainGlue.handleSort args
   | "c03.json.coveralls" :: args => handleJsonCoveralls args
